@@ -24,6 +24,7 @@ func (w *Watchable[T]) Set(t T) {
 		c: make(chan struct{}),
 	}
 	oldInner := w.p.Swap(newInner)
+	verifHook("watchable.set.swapped")
 	if oldInner != nil {
 		close(oldInner.c)
 	}
@@ -56,6 +57,7 @@ func (w *Watchable[T]) Value() (T, chan struct{}) {
 		emptyInner := &watchableInner[T]{
 			c: c,
 		}
+		verifHook("watchable.value.unset")
 		// CompareAndSwap so we don't accidentally smash a real value that got put between our Load
 		// and here.
 		if w.p.CompareAndSwap(nil, emptyInner) {
